@@ -116,7 +116,9 @@ func (c *c08case) check(cx *lib.Ctx, variant string, body hcl.Body, ctx *hcl.Eva
 	res := cx.Res
 	var implied cty.Type
 	den, dok := decgen.SafeDenote(c.spec, c.body, partial)
-	if mode != "full" {
+	if mode != "full" || !dok {
+		// (also when the harness's own construction of the expected value gave up half-way: the flags
+		// collected so far may be incomplete)
 		if den.Flags == nil {
 			den.Flags = map[string]bool{}
 		}
@@ -199,11 +201,10 @@ func (c *c08case) check(cx *lib.Ctx, variant string, body hcl.Body, ctx *hcl.Eva
 		if den.Err {
 			res.Fail(lib.Failure{Kind: "oracle", Key: after("error-not-reported:" + den.Why), Desc: "the body is not valid for the specification (" + den.Why + ": " + den.Detail + ") but decoding reported no error (" + variant + ")", Input: input, Impl: lib.DumpValue(val)})
 		} else {
-			sum := ""
+			sum := "" // (hcldec visits an ObjectSpec in map order: take the smallest summary, not the first)
 			for _, d := range diags {
-				if d.Severity == hcl.DiagError {
+				if d.Severity == hcl.DiagError && (sum == "" || d.Summary < sum) {
 					sum = d.Summary
-					break
 				}
 			}
 			res.Fail(lib.Failure{Kind: "oracle", Key: after("spurious-error:" + decgen.SummaryKey(sum)), Desc: "the body is valid for the specification but decoding reported an error (" + variant + ")", Input: input, Impl: decgen.DiagText(diags)})
@@ -362,7 +363,7 @@ func run(cx *lib.Ctx) {
 	// lib.NewRand(seed) and lib.NewRand(seed+1) are the same stream shifted by one draw; Fork mixes the
 	// state so that neighbouring -seed values give unrelated case sequences.
 	root := cx.R.Fork()
-	n := cx.Scale(20000, 260000)
+	n := cx.Scale(24000, 300000)
 	for i := 0; i < n; i++ {
 		seed := root.U64()
 		depth := 2 + int(seed%3)
